@@ -41,6 +41,47 @@ fn fixed_catalog() -> CatalogSpec {
         RecSpec { owner: rel(&[b"other"]), ttl: 300, rd: RdSpec::A(3) },
         RecSpec { owner: rel(&[b"*", b"wild"]), ttl: 300, rd: RdSpec::A(4) },
         RecSpec { owner: rel(&[b"*", b"literal"]), ttl: 300, rd: RdSpec::A(5) },
+        // a wildcard whose A RRset (40 records, about 650 octets) does not fit a plain UDP response: TC set
+        RecSpec { owner: rel(&[b"*", b"bigwild"]), ttl: 300, rd: RdSpec::A(100) },
+        RecSpec { owner: rel(&[b"*", b"bigwild"]), ttl: 300, rd: RdSpec::A(101) },
+        RecSpec { owner: rel(&[b"*", b"bigwild"]), ttl: 300, rd: RdSpec::A(102) },
+        RecSpec { owner: rel(&[b"*", b"bigwild"]), ttl: 300, rd: RdSpec::A(103) },
+        RecSpec { owner: rel(&[b"*", b"bigwild"]), ttl: 300, rd: RdSpec::A(104) },
+        RecSpec { owner: rel(&[b"*", b"bigwild"]), ttl: 300, rd: RdSpec::A(105) },
+        RecSpec { owner: rel(&[b"*", b"bigwild"]), ttl: 300, rd: RdSpec::A(106) },
+        RecSpec { owner: rel(&[b"*", b"bigwild"]), ttl: 300, rd: RdSpec::A(107) },
+        RecSpec { owner: rel(&[b"*", b"bigwild"]), ttl: 300, rd: RdSpec::A(108) },
+        RecSpec { owner: rel(&[b"*", b"bigwild"]), ttl: 300, rd: RdSpec::A(109) },
+        RecSpec { owner: rel(&[b"*", b"bigwild"]), ttl: 300, rd: RdSpec::A(110) },
+        RecSpec { owner: rel(&[b"*", b"bigwild"]), ttl: 300, rd: RdSpec::A(111) },
+        RecSpec { owner: rel(&[b"*", b"bigwild"]), ttl: 300, rd: RdSpec::A(112) },
+        RecSpec { owner: rel(&[b"*", b"bigwild"]), ttl: 300, rd: RdSpec::A(113) },
+        RecSpec { owner: rel(&[b"*", b"bigwild"]), ttl: 300, rd: RdSpec::A(114) },
+        RecSpec { owner: rel(&[b"*", b"bigwild"]), ttl: 300, rd: RdSpec::A(115) },
+        RecSpec { owner: rel(&[b"*", b"bigwild"]), ttl: 300, rd: RdSpec::A(116) },
+        RecSpec { owner: rel(&[b"*", b"bigwild"]), ttl: 300, rd: RdSpec::A(117) },
+        RecSpec { owner: rel(&[b"*", b"bigwild"]), ttl: 300, rd: RdSpec::A(118) },
+        RecSpec { owner: rel(&[b"*", b"bigwild"]), ttl: 300, rd: RdSpec::A(119) },
+        RecSpec { owner: rel(&[b"*", b"bigwild"]), ttl: 300, rd: RdSpec::A(120) },
+        RecSpec { owner: rel(&[b"*", b"bigwild"]), ttl: 300, rd: RdSpec::A(121) },
+        RecSpec { owner: rel(&[b"*", b"bigwild"]), ttl: 300, rd: RdSpec::A(122) },
+        RecSpec { owner: rel(&[b"*", b"bigwild"]), ttl: 300, rd: RdSpec::A(123) },
+        RecSpec { owner: rel(&[b"*", b"bigwild"]), ttl: 300, rd: RdSpec::A(124) },
+        RecSpec { owner: rel(&[b"*", b"bigwild"]), ttl: 300, rd: RdSpec::A(125) },
+        RecSpec { owner: rel(&[b"*", b"bigwild"]), ttl: 300, rd: RdSpec::A(126) },
+        RecSpec { owner: rel(&[b"*", b"bigwild"]), ttl: 300, rd: RdSpec::A(127) },
+        RecSpec { owner: rel(&[b"*", b"bigwild"]), ttl: 300, rd: RdSpec::A(128) },
+        RecSpec { owner: rel(&[b"*", b"bigwild"]), ttl: 300, rd: RdSpec::A(129) },
+        RecSpec { owner: rel(&[b"*", b"bigwild"]), ttl: 300, rd: RdSpec::A(130) },
+        RecSpec { owner: rel(&[b"*", b"bigwild"]), ttl: 300, rd: RdSpec::A(131) },
+        RecSpec { owner: rel(&[b"*", b"bigwild"]), ttl: 300, rd: RdSpec::A(132) },
+        RecSpec { owner: rel(&[b"*", b"bigwild"]), ttl: 300, rd: RdSpec::A(133) },
+        RecSpec { owner: rel(&[b"*", b"bigwild"]), ttl: 300, rd: RdSpec::A(134) },
+        RecSpec { owner: rel(&[b"*", b"bigwild"]), ttl: 300, rd: RdSpec::A(135) },
+        RecSpec { owner: rel(&[b"*", b"bigwild"]), ttl: 300, rd: RdSpec::A(136) },
+        RecSpec { owner: rel(&[b"*", b"bigwild"]), ttl: 300, rd: RdSpec::A(137) },
+        RecSpec { owner: rel(&[b"*", b"bigwild"]), ttl: 300, rd: RdSpec::A(138) },
+        RecSpec { owner: rel(&[b"*", b"bigwild"]), ttl: 300, rd: RdSpec::A(139) },
         // wildcard CNAMEs whose targets do not exist: synthesis happens, the response is NXDOMAIN
         RecSpec { owner: rel(&[b"*", b"dangle"]), ttl: 300, rd: RdSpec::Single(mr::T_CNAME, rel(&[b"nope"])) },
         RecSpec { owner: rel(&[b"*", b"dangle2"]), ttl: 300, rd: RdSpec::Single(mr::T_CNAME, rel(&[b"gone", b"deep"])) },
@@ -77,6 +118,8 @@ pub enum Shape {
     NotImpQtype,
     /// NXDOMAIN reached through a wildcard-synthesised CNAME: (which wildcard, first label variant)
     WildNx(u8, u8),
+    /// wildcard-synthesised answer that does not fit a UDP response without EDNS (TC): first label variant
+    WildBig(u8),
 }
 
 #[derive(Clone, Debug, Serialize, Deserialize, PartialEq, Eq, Hash)]
@@ -109,6 +152,14 @@ fn qname_of(shape: &Shape) -> MName {
             } else {
                 n(&[first, b"literal", b"test"])
             }
+        }
+        Shape::WildBig(v) => {
+            let first: &[u8] = match v % 3 {
+                0 => b"aaa",
+                1 => b"bbb",
+                _ => b"ccc",
+            };
+            n(&[first, b"bigwild", b"test"])
         }
         Shape::WildNx(w, v) => {
             let first: &[u8] = if v % 2 == 0 { b"aaa" } else { b"bbb" };
@@ -254,7 +305,7 @@ pub fn oracle_bucket(case: &BucketCase, st: &mut Stats) -> Verdict {
     let mut req = case.req.clone();
     req.tcp = false;
     req.opcode = 0;
-    for attempt in 0..3 {
+    for _attempt in 0..5 {
         let limited_server = make_server(&cat, &ServerCfg { payload: 1232, keys: vec![], rrl: Some(case.rrl.clone()) });
         let twin = make_server(&cat, &ServerCfg { payload: 1232, keys: vec![], rrl: None });
         let bytes = render_req(&req, 77);
@@ -273,6 +324,7 @@ pub fn oracle_bucket(case: &BucketCase, st: &mut Stats) -> Verdict {
         let mut limited_seen = false;
         let mut recovered = false;
         let mut local = Stats::default();
+        let verdict: Verdict = (|| {
         for (i, gap) in case.gaps.iter().enumerate() {
             limited_server.shift_rrl_time(*gap);
             let got = exchange(&limited_server, &bytes, false, src, &mut buf).map_err(|f| Fail::new(f.signature, format!("step #{i} after advancing {gap} s (rate {rate}, window {}): {}", case.rrl.window, f.detail)))?;
@@ -314,10 +366,16 @@ pub fn oracle_bucket(case: &BucketCase, st: &mut Stats) -> Verdict {
                 }
             }
         }
-        if started.elapsed().as_millis() > 500 && attempt < 2 {
+        Ok(())
+        })();
+        // Real time passes too: a history that took more than half a second is not judged (a whole
+        // second of real time adds a refill the reference does not know about), whatever it showed;
+        // it is run again, and given up after five attempts. A panic is a panic at any speed.
+        if started.elapsed().as_millis() > 500 && !matches!(&verdict, Err(f) if f.signature.starts_with("panic")) {
             st.discard("history-took-too-long-retried");
             continue;
         }
+        verdict?;
         st.evals(local.evaluations);
         st.class(["stream-noerror", "stream-nxdomain", "stream-error"][cat_idx as usize]);
         if limited_seen {
@@ -329,6 +387,7 @@ pub fn oracle_bucket(case: &BucketCase, st: &mut Stats) -> Verdict {
         }
         return Ok(());
     }
+    st.discard("history-never-ran-within-the-real-time-budget");
     Ok(())
 }
 
@@ -394,7 +453,7 @@ pub fn oracle_pair(case: &PairCase, st: &mut Stats) -> Verdict {
         v6_prefix: case.v6_prefix.min(64),
         size: case.size.max(1),
     };
-    for attempt in 0..3 {
+    for _attempt in 0..5 {
         let server = make_server(&cat, &ServerCfg { payload: 1232, keys: vec![], rrl: Some(rrl.clone()) });
         let twin = make_server(&cat, &ServerCfg { payload: 1232, keys: vec![], rrl: None });
         let mut buf = Vec::new();
@@ -409,7 +468,8 @@ pub fn oracle_pair(case: &PairCase, st: &mut Stats) -> Verdict {
         let started = Instant::now();
         let ga = exchange(&server, &ra, case.a.tcp, sa, &mut buf)?;
         let gb = exchange(&server, &rb, case.b.tcp, sb, &mut buf)?;
-        if started.elapsed().as_millis() > 500 && attempt < 2 {
+        // a pair that took more than half a second is never judged (a refill may have happened)
+        if started.elapsed().as_millis() > 500 {
             st.discard("pair-took-too-long-retried");
             continue;
         }
@@ -470,6 +530,7 @@ fn req_strategy() -> impl Strategy<Value = Req> {
         1 => (0u8..2).prop_map(Shape::LiteralStar),
         2 => (0u8..2).prop_map(Shape::NxDomain),
         2 => (0u8..2, 0u8..2).prop_map(|(w, v)| Shape::WildNx(w, v)),
+        2 => (0u8..3).prop_map(Shape::WildBig),
         2 => (0u8..2).prop_map(Shape::Refused),
         1 => Just(Shape::ServFail),
         1 => Just(Shape::FormErr),
